@@ -30,6 +30,8 @@ r3 = (a, x, i) => a + x * i
 ropt = (a, x, i?) => [a, x, i]
 rrest = (...r) => r
 rrec = (a, x) => if x <= 0 then a else rrec(a + 1, x - 1)
+zero = () => 7
+zerob = () => true
 "#;
 
 /// (name or expression, arity class: how many positional arguments it accepts up to 3)
@@ -78,6 +80,12 @@ fn unary_funcs() -> Vec<F> {
         f("concat", false, true, true),
         f("format", true, true, true),
         f("min", true, true, true),
+        // callbacks that accept no argument at all, and one that needs three
+        f("zero", false, false, false),
+        f("zerob", false, false, false),
+        f("(() => 7)", false, false, false),
+        f("(() => true)", false, false, false),
+        f("r3", false, false, true),
         f("5", false, false, false),
         f("nothing_bound", false, false, false),
     ];
